@@ -19,9 +19,13 @@ pub fn take_io_trace() -> Vec<(String, &'static str)> {
 }
 
 /// calls `func(value_len, encoded_size_field_len, piece_len, slot_size)` for every
-/// value length from `max_len` down to 0.
-pub fn sweep_value_slot_sizes(max_len: usize, func: &mut dyn FnMut(usize, u32, u32, u32)) {
-    super::inner::verif_sweep_value_slot_sizes(max_len, func)
+/// value length from `max_len` down to `min_len`.
+pub fn sweep_value_slot_sizes(
+    min_len: usize,
+    max_len: usize,
+    func: &mut dyn FnMut(usize, u32, u32, u32),
+) {
+    super::inner::verif_sweep_value_slot_sizes(min_len, max_len, func)
 }
 
 /// calls `func(key_len, value_offset, next_offset, encoded_size_field_len, piece_len, slot_size)`
